@@ -3,6 +3,9 @@ package main
 import (
 	"fmt"
 	"strings"
+	"time"
+
+	"github.com/gobuffalo/plush/v5"
 )
 
 // ---- C03: parsing is total ---------------------------------------------------
@@ -38,7 +41,7 @@ func init() {
 	register("C03", func(e *Env) {
 		parsePrelude()
 		e.perShard = 300
-		e.rep.Rule = "Parse on: every token sequence of length <= k over a 51-token vocabulary in 4 framings (closed tag, unclosed output tag, inside an if block, nested opener) - all judged by the recover/watchdog oracle, a seeded sample also re-parsed by the model (program dump / error lines compared); random token soup up to 60 tokens; byte mutations of valid templates; nesting towers to depth 256; non-trivial = produced a program or at least one syntax error after lexing >= 2 tokens; distinct by input"
+		e.rep.Rule = "Parse on: every token sequence of length <= k over a 51-token vocabulary in 4 framings (closed tag, unclosed output tag, inside an if block, nested opener) - all judged by the recover/watchdog oracle, a seeded sample also re-parsed by the model (program dump / error lines compared); random token soup up to 60 tokens; byte mutations of valid templates; nesting towers to depth 256; plush.Parse / plush.Render / NewTemplate+Exec with the cache off and on over histories (failing input, then valid ones, then the failing one again); non-trivial = produced a program or at least one syntax error after lexing >= 2 tokens; distinct by input"
 		k := 2
 		if e.Thorough() {
 			k = 3
@@ -169,6 +172,77 @@ func init() {
 			e.parseOracleOnly("tower", strings.Repeat("<% for (v) in xs { %>", depth)+"<% break %>"+strings.Repeat("<% } %>", depth))
 			e.parseOracleOnly("tower", strings.Repeat("<%# ", depth))
 		}
+		// the package-level entry points (plush.Parse / plush.Render / Template.Exec), with the
+		// template cache off and on, over HISTORIES: a failing input followed by good ones and
+		// by itself again; every call under recover + watchdog
+		guarded := func(what string, f func() error) string {
+			ch := make(chan string, 1)
+			go func() {
+				defer func() {
+					if r := recover(); r != nil {
+						ch <- "PANIC: " + fmt.Sprint(r) + " @ " + panicSite()
+					}
+				}()
+				if err := f(); err != nil {
+					ch <- "ERR"
+					return
+				}
+				ch <- "OK"
+			}()
+			select {
+			case r := <-ch:
+				return r
+			case <-time.After(3 * time.Second):
+				return "HANG"
+			}
+		}
+		bads := []string{"<%= ( %>", "<% if (a) { %>x", "<%= [1, %>", "<% let = %>", "<%# never closed", "<%= \"open", "<% for (x) in { %>", "a\\<"}
+		goods := []string{"plain", "<%= 1 + 2 %>", "<% let a = 1 %><%= a %>"}
+	hist:
+		for _, cache := range []bool{false, true, false, true} {
+			plush.CacheEnabled = cache
+			for _, bad := range bads {
+				for _, seq := range [][]string{{bad, goods[0]}, {bad, bad, goods[1]}, {goods[2], bad, goods[2], bad}} {
+					for _, in := range seq {
+						in := in
+						e.rep.Evaluations++
+						e.Count(fmt.Sprintf("history-cache=%v", cache))
+						for _, call := range []struct {
+							name string
+							f    func() error
+						}{
+							{"plush.Parse", func() error { _, err := plush.Parse(in); return err }},
+							{"plush.Render", func() error { _, err := plush.Render(in, plush.NewContext()); return err }},
+							{"NewTemplate+Exec", func() error {
+								t, err := plush.NewTemplate(in)
+								if err != nil {
+									return err
+								}
+								_, err = t.Exec(plush.NewContext())
+								return err
+							}},
+						} {
+							r := guarded(call.name, call.f)
+							// whether the text has a syntax error is what parser.Parse says on a direct call
+							isBad := parseImpl(in).Class == "ERR"
+							rp := map[string]interface{}{"history": seq, "input": in, "call": call.name, "cache": cache, "result": r}
+							switch {
+							case r == "HANG":
+								e.Violate("parse-hang", fmt.Sprintf("%s(%q) did not return within 3s (cache=%v, after the history %q)", call.name, in, cache, seq), rp)
+								break hist // the lock may be gone for good
+							case strings.HasPrefix(r, "PANIC"):
+								e.Violate("parse-panic@"+siteOf(r), fmt.Sprintf("%s(%q) panicked: %s", call.name, in, r), rp)
+							case isBad && r == "OK":
+								e.Violate("parse-accepts-syntax-error", fmt.Sprintf("%s(%q) returned no error (cache=%v, history %q)", call.name, in, cache, seq), rp)
+							case !isBad && r != "OK":
+								e.Violate("parse-rejects-valid", fmt.Sprintf("%s(%q) failed (cache=%v, history %q)", call.name, in, cache, seq), rp)
+							}
+						}
+					}
+				}
+			}
+		}
+		plush.CacheEnabled = false
 		// the repaired defects stay in the corpus
 		for _, in := range []string{"<%# abc", "<% break( %>", "<% for (x) in ) { %>", "<%= {a: ) } %>", "<%= xs[)] %>", "<% break[1] %>", "<%= [1, )] %>", "a\\<", "\\<", "<%= {let: 1} %>", "<% if (true) { } else if (let) { } %>"} {
 			e.addParseCase("corpus", in)
